@@ -876,6 +876,9 @@ class RegionLifter:
             raise Unsupported(f"transcendental {name}")
         if name in ("np.sort", "np.flip", "np.unique"):
             raise Unsupported(name)
+        if name in ("np.finfo", "np.iinfo"):
+            self.rg.values.setdefault("TINY", 2.220446049250313e-16)
+            return Obj(None, {"eps": sym("TINY"), "tiny": sym("TINY"), "max": INF, "min": -INF})
         if name == "compiled_clone":
             return args[0]
         if name == "spectral_norm" and len(args) >= 4:
